@@ -5,6 +5,7 @@ from __future__ import annotations
 import numpy as np
 from hypothesis import strategies as st
 
+from mzverif import core
 from mzverif import gen as G
 from mzverif import lib as L
 from mzverif import model as M
@@ -110,59 +111,79 @@ def _check_one(case: dict):
         if values is not None:
             call("C20:add_node_values", mp.add_node_values, np.array(values, dtype=float), hide_colorbar=case.get("hide_colorbar", True))
         true_path = [tuple(q) for q in sol] if kind != "lattice" else None
+        handed: list = []
         if case.get("true_path") is not None:
             tp = case["true_path"]
-            call("C20:add_true_path", mp.add_true_path, np.array(tp, dtype=pdt) if case.get("as_array") else [tuple(q) for q in tp])
+            arg = np.array(tp, dtype=pdt) if case.get("as_array") else [tuple(q) for q in tp]
+            handed.append(arg)
+            call("C20:add_true_path", mp.add_true_path, arg)
             true_path = [tuple(q) for q in tp]
         preds = []
         for k, pp in enumerate(case.get("pred_paths", [])):
             arg = np.array(pp, dtype=pdt) if (case.get("as_array") and k % 2 == 0) else [tuple(q) for q in pp]
+            handed.append(arg)
             call("C20:add_predicted_path", mp.add_predicted_path, arg)
             preds.append([tuple(q) for q in pp])
-        call("C20:plot", mp.plot)
-        ax = mp.ax
-        require(len(ax.images) >= 1, "C20:no-image", "nothing was drawn with imshow")
-        _blocks_and_strips("C20", ax.images[0].get_array(), g, ul, values)
-        # where the image sits in data coordinates: paths are drawn at (ul*(col+1/2), ul*(row+1/2)), so the centre of cell (row, col)
-        # must fall on that cell's block when mapped back through the image's extent
-        im = ax.images[0]
-        left, right, bottom, top = (float(v) for v in im.get_extent())
-        H, W = np.ma.getdata(im.get_array()).shape[:2]
-        require(right != left and top != bottom, "C20:image-extent", f"degenerate extent {im.get_extent()}")
-        for (rr, cc) in {(0, 0), (g["r"] - 1, g["c"] - 1), (0, g["c"] - 1), (g["r"] - 1, 0), (g["r"] // 2, g["c"] // 2)}:
-            x, y = ul * (cc + 0.5), ul * (rr + 0.5)
-            px = (x - left) / (right - left) * W
-            py = (y - top) / (bottom - top) * H
-            require(cc * ul + 1 <= px <= (cc + 1) * ul and rr * ul + 1 <= py <= (rr + 1) * ul, "C20:image-extent",
-                    f"{g['r']}x{g['c']} maze, unit {ul}: the centre of cell ({rr},{cc}) at data ({x},{y}) maps to image pixel ({py:.1f},{px:.1f}), outside the cell's block; extent={im.get_extent()} image {H}x{W}")
-        # true path: a line through the centres of exactly its cells, in order
-        lines = [ln for ln in ax.lines]
-        if true_path is not None:
-            cand = [ln for ln in lines if ln.get_label() == "true path"]
-            require(len(cand) == 1, "C20:true-path-missing", f"{len(cand)} lines labelled 'true path'")
-            got = [(float(x), float(y)) for x, y in zip(*cand[0].get_data())]
-            if kind == "targeted" and case.get("true_path") is None:
-                # the plot solves a targeted maze itself: any shortest route between the endpoints is a correct true path
-                cells = [(int(round(y / ul - 0.5)), int(round(x / ul - 0.5))) for x, y in got]
-                require(_xy(cells, ul) == got, "C20:true-path-wrong", f"line through {got[:5]}.. does not pass through cell centres")
-                prob = M.path_problems(g, M.adj(g), cells, start=true_path[0], end=true_path[-1], need_shortest=True, need_simple=True)
-                require(prob is None, "C20:true-path-wrong", f"solved path drawn for the targeted maze is not a shortest route: {prob}")
-                true_path = cells
-            require(got == _xy(true_path, ul), "C20:true-path-wrong", f"line through {got[:5]}.., expected {_xy(true_path, ul)[:5]}.. (rows vertical, columns horizontal)")
-            markers = [(ln.get_marker(), [(float(x), float(y)) for x, y in zip(*ln.get_data())]) for ln in lines if ln is not cand[0]]
-            require(("o", [_xy(true_path, ul)[0]]) in markers and ("x", [_xy(true_path, ul)[-1]]) in markers, "C20:endpoint-markers",
-                    f"start/end markers not at the first/last cell: {markers[:4]}")
-        import matplotlib.quiver as mq
+        if case.get("reuse_buffers"):
+            # the caller reuses the arrays it passed in (one preallocated buffer for successive roll-outs, say) before the plot is drawn
+            for arr in handed:
+                core.scribble(arr)
+        for rnd in (0, 1):
+            if rnd == 1:
+                if not case.get("replot"):
+                    break
+                # the same plot object is drawn again after the caller changed what it lists: the new drawing shows what is listed now
+                rp = case["replot"]
+                if rp.get("true_path") is not None:
+                    call("C20:add_true_path", mp.add_true_path, [tuple(q) for q in rp["true_path"]])
+                    true_path = [tuple(q) for q in rp["true_path"]]
+                for pp in rp.get("pred_paths", []):
+                    call("C20:add_predicted_path", mp.add_predicted_path, [tuple(q) for q in pp])
+                    preds.append([tuple(q) for q in pp])
+            call("C20:plot", mp.plot)
+            ax = mp.ax
+            require(len(ax.images) >= 1, "C20:no-image", "nothing was drawn with imshow")
+            _blocks_and_strips("C20", ax.images[0].get_array(), g, ul, values)
+            # where the image sits in data coordinates: paths are drawn at (ul*(col+1/2), ul*(row+1/2)), so the centre of cell (row, col)
+            # must fall on that cell's block when mapped back through the image's extent
+            im = ax.images[0]
+            left, right, bottom, top = (float(v) for v in im.get_extent())
+            H, W = np.ma.getdata(im.get_array()).shape[:2]
+            require(right != left and top != bottom, "C20:image-extent", f"degenerate extent {im.get_extent()}")
+            for (rr, cc) in {(0, 0), (g["r"] - 1, g["c"] - 1), (0, g["c"] - 1), (g["r"] - 1, 0), (g["r"] // 2, g["c"] // 2)}:
+                x, y = ul * (cc + 0.5), ul * (rr + 0.5)
+                px = (x - left) / (right - left) * W
+                py = (y - top) / (bottom - top) * H
+                require(cc * ul + 1 <= px <= (cc + 1) * ul and rr * ul + 1 <= py <= (rr + 1) * ul, "C20:image-extent",
+                        f"{g['r']}x{g['c']} maze, unit {ul}: the centre of cell ({rr},{cc}) at data ({x},{y}) maps to image pixel ({py:.1f},{px:.1f}), outside the cell's block; extent={im.get_extent()} image {H}x{W}")
+            # true path: a line through the centres of exactly its cells, in order
+            lines = [ln for ln in ax.lines]
+            if true_path is not None:
+                cand = [ln for ln in lines if ln.get_label() == "true path"]
+                require(len(cand) == 1, "C20:true-path-missing", f"{len(cand)} lines labelled 'true path'")
+                got = [(float(x), float(y)) for x, y in zip(*cand[0].get_data())]
+                if kind == "targeted" and case.get("true_path") is None and not (rnd == 1 and case["replot"].get("true_path") is not None):
+                    # the plot solves a targeted maze itself: any shortest route between the endpoints is a correct true path
+                    cells = [(int(round(y / ul - 0.5)), int(round(x / ul - 0.5))) for x, y in got]
+                    require(_xy(cells, ul) == got, "C20:true-path-wrong", f"line through {got[:5]}.. does not pass through cell centres")
+                    prob = M.path_problems(g, M.adj(g), cells, start=true_path[0], end=true_path[-1], need_shortest=True, need_simple=True)
+                    require(prob is None, "C20:true-path-wrong", f"solved path drawn for the targeted maze is not a shortest route: {prob}")
+                    true_path = cells
+                require(got == _xy(true_path, ul), "C20:true-path-wrong", f"line through {got[:5]}.., expected {_xy(true_path, ul)[:5]}.. (rows vertical, columns horizontal)")
+                markers = [(ln.get_marker(), [(float(x), float(y)) for x, y in zip(*ln.get_data())]) for ln in lines if ln is not cand[0]]
+                require(("o", [_xy(true_path, ul)[0]]) in markers and ("x", [_xy(true_path, ul)[-1]]) in markers, "C20:endpoint-markers",
+                        f"start/end markers not at the first/last cell: {markers[:4]}")
+            import matplotlib.quiver as mq
 
-        quivers = [c for c in ax.collections if isinstance(c, mq.Quiver)]
-        require(len(quivers) == len(preds), "C20:predicted-path-count", f"{len(quivers)} quiver artists for {len(preds)} predicted paths")
-        for q, pp in zip(quivers, preds):
-            X, Y, U, V = (np.asarray(v, dtype=float).ravel() for v in (q.X, q.Y, q.U, q.V))
-            pts = [(float(x), float(y)) for x, y in zip(X, Y)] + ([(float(X[-1] + U[-1]), float(Y[-1] + V[-1]))] if len(X) else [])
-            ok = pts == _xy(pp, ul) and all(abs((X[k] + U[k]) - _xy(pp, ul)[k + 1][0]) < 1e-9 and abs((Y[k] + V[k]) - _xy(pp, ul)[k + 1][1]) < 1e-9 for k in range(len(X)))
-            require(ok, "C20:predicted-path-wrong", f"arrows through {pts[:5]}.., expected {_xy(pp, ul)[:5]}..")
+            quivers = [c for c in ax.collections if isinstance(c, mq.Quiver)]
+            require(len(quivers) == len(preds), "C20:predicted-path-count", f"{len(quivers)} quiver artists for {len(preds)} predicted paths")
+            for q, pp in zip(quivers, preds):
+                X, Y, U, V = (np.asarray(v, dtype=float).ravel() for v in (q.X, q.Y, q.U, q.V))
+                pts = [(float(x), float(y)) for x, y in zip(X, Y)] + ([(float(X[-1] + U[-1]), float(Y[-1] + V[-1]))] if len(X) else [])
+                ok = pts == _xy(pp, ul) and all(abs((X[k] + U[k]) - _xy(pp, ul)[k + 1][0]) < 1e-9 and abs((Y[k] + V[k]) - _xy(pp, ul)[k + 1][1]) < 1e-9 for k in range(len(X)))
+                require(ok, "C20:predicted-path-wrong", f"arrows through {pts[:5]}.., expected {_xy(pp, ul)[:5]}..")
         # ASCII export (only for the maze's own drawing: a hand-added true path need not be a solution)
-        for se, ss in ((True, True), (True, False)) if case.get("true_path") is None else ():
+        for se, ss in ((True, True), (True, False)) if case.get("true_path") is None and not (case.get("replot") or {}).get("true_path") else ():
             txt = call("C20:to_ascii", mp.to_ascii, show_endpoints=se, show_solution=ss)
             if true_path is None:
                 want = M.render_ascii(M.render(g, None, None, None, se, ss))
@@ -223,6 +244,14 @@ def _case(draw, hi):
     if draw(st.integers(0, 3)) == 0:
         case["true_path"] = walk()
     case["as_array"] = draw(st.booleans())
+    if case["as_array"] and draw(st.booleans()):
+        case["reuse_buffers"] = True
+    if draw(st.integers(0, 3)) == 0:
+        rp = {}
+        if draw(st.booleans()) and (case["kind"] != "lattice" or case.get("true_path") is not None):
+            rp["true_path"] = walk()
+        rp["pred_paths"] = [walk() for _ in range(draw(st.integers(0 if rp else 1, 2)))]
+        case["replot"] = rp
     return case
 
 
